@@ -33,7 +33,8 @@ META = dict(
         quick='5 geos (2 control, 2 treatment, 1 unassigned label) x 9 dates '
         '(6 pre, 3 test); at most 2 designated geos can be flagged, at most 2 '
         'designated dates can be outliers (any subset, any order of rounds); '
-        'default and custom column names / group and period labels; 4-geo '
+        'default and custom column names / group and period labels; frames '
+        'with repeated row labels; 4-geo '
         'variant where a whole group can be screened away',
         thorough='3 flaggable geos, 3 candidate dates, 6 geos'),
     outside='whether the detectors flag the right geos / dates (statistical '
@@ -166,7 +167,8 @@ class Stubs:
       setattr(self.TD, k, v)
 
 
-def build_frame(groups, n_dates, n_pre, cells, names, shuffle=0):
+def build_frame(groups, n_dates, n_pre, cells, names, shuffle=0,
+                dup_index=False):
   kw = NAMES[names]
   col = lambda k, dflt: kw.get('key_' + k, dflt)
   lab_c, lab_t = kw.get('group_control', 1), kw.get('group_treatment', 2)
@@ -182,7 +184,12 @@ def build_frame(groups, n_dates, n_pre, cells, names, shuffle=0):
                    col('response', 'response'): cells[g, d]})
   if shuffle:
     random.Random(shuffle).shuffle(rows)
-  return pd.DataFrame(rows), dates, kw
+  df = pd.DataFrame(rows)
+  if dup_index:
+    # the caller's frame carries repeated row labels (e.g. per-geo frames
+    # concatenated without ignore_index)
+    df.index = [i % n_dates for i in range(len(df))]
+  return df, dates, kw
 
 
 def run_fit(TD, df, kw):
@@ -192,7 +199,7 @@ def run_fit(TD, df, kw):
 
 
 def screen_job(name, groups, flaggable, cand, names=0, twin=False,
-               n_dates=9, n_pre=6, max_s=800):
+               n_dates=9, n_pre=6, max_s=800, dup_index=False):
   symx.patch_pandas()
   from matched_markets.methodology import tbrdiagnostics as TD
   js = framework.JobStats(name)
@@ -202,8 +209,10 @@ def screen_job(name, groups, flaggable, cand, names=0, twin=False,
   def fn():
     cells = {(g, d): symx.real('r_%d_%d' % (g, d)) for g in range(len(groups))
              for d in range(n_dates)}
-    df, dates, kw = build_frame(groups, n_dates, n_pre, cells, names)
-    df2, _, _ = build_frame(groups, n_dates, n_pre, cells, names, shuffle=7)
+    df, dates, kw = build_frame(groups, n_dates, n_pre, cells, names,
+                                dup_index=dup_index)
+    df2, _, _ = build_frame(groups, n_dates, n_pre, cells, names, shuffle=7,
+                            dup_index=dup_index)
     rcol = kw.get('key_response', 'response')
     gcol, dcol = kw.get('key_geo', 'geo'), kw.get('key_date', 'date')
     # pre-period series fingerprint -> geo (for the pearsonr stub)
@@ -307,7 +316,7 @@ def screen_job(name, groups, flaggable, cand, names=0, twin=False,
       elif len(js.r['violations']) < 20:
         js.r['violations'].append(dict(case=dict(
             kind='screen', groups=groups, names=names, info=info,
-            n_dates=n_dates, n_pre=n_pre), twin=twin,
+            n_dates=n_dates, n_pre=n_pre, dup_index=dup_index), twin=twin,
                                        detail='%s %s' % (nm, info)))
     if len(js.r['samples']) < 3:
       js.r['samples'].append(dict(groups=groups, names=names, **info))
@@ -329,6 +338,11 @@ def jobs(tier, seed):
             name=name, groups=G5, flaggable=fl, cand=cand, names=names,
             max_s=800 if tier == 'quick' else 3000),
                         timeout_s=900 if tier == 'quick' else 3300))
+  for fl in ([1, 2], [4, 1]):
+    name = 'g5-dupindex-flag%s' % ''.join(map(str, fl))
+    out.append(dict(func='screen_job', name=name, kwargs=dict(
+        name=name, groups=G5, flaggable=fl, cand=[5], names=0,
+        dup_index=True)))
   # a whole group can be screened away
   name = 'g4-group-can-vanish'
   out.append(dict(func='screen_job', name=name, kwargs=dict(
@@ -376,7 +390,8 @@ def replay(case):
     for j in range(want_out):
       if tg:
         cells[tg[0], 50 - 9 * j] += 120.0
-    df, dates, kw = build_frame(groups, n_dates, n_pre, cells, names)
+    df, dates, kw = build_frame(groups, n_dates, n_pre, cells, names,
+                                dup_index=bool(case.get('dup_index')))
     snap = df.copy()
     try:
       td = run_fit(TD, df, kw)
